@@ -104,6 +104,19 @@ cases.append(("C-FIND: Pending with an identifier whose element value cannot be 
               [(1, rsp_find(0xFF00, lazy_bad)), (1, rsp_find(0x0000))], 2))
 cases.append(("C-GET: Failure with an identifier whose element value cannot be converted (found while logging)", "get", ImplicitVRLittleEndian,
               [(1, rsp_get(0xA701, lazy_bad))], 1))
+
+
+def invalid(r):
+    """a response with a Status but without Message ID Being Responded To: not a valid DIMSE response"""
+    r.MessageIDBeingRespondedTo = None
+    return r
+
+
+# expected: the documented (empty Dataset, None) result once, abort, nothing after it
+cases.append(("C-FIND: invalid response (Status, no Message ID Being Responded To) then Pending, Success", "find", ImplicitVRLittleEndian,
+              [(1, invalid(rsp_find(0xFF00, good))), (1, rsp_find(0xFF00, good)), (1, rsp_find(0x0000))], 1))
+cases.append(("C-GET: Pending, then an invalid response, then Success", "get", ImplicitVRLittleEndian,
+              [(1, rsp_get(0xFF00)), (1, invalid(rsp_get(0xFF00))), (1, rsp_get(0x0000))], 2))
 import logging  # noqa: E402
 logging.getLogger("pynetdicom").setLevel(logging.DEBUG)
 logging.getLogger("pynetdicom").addHandler(logging.NullHandler())
@@ -122,6 +135,10 @@ for desc, which, ts, script, want in cases:
     except Exception as e:
         err = e
     broken = [i for i, x in enumerate(items) if not usable(x[1])]
+    if "invalid response" in desc and not err and len(items) == want and ("abort" not in log or items[-1][1] is not None):
+        bad = dict(input=desc, observed={"items": [(getattr(st, "Status", None), idn is not None) for st, idn in items], "log": log},
+                   expected="the last item is (empty Dataset, None) and the association is aborted")
+        break
     if err is not None or len(items) != want or any(depths) or a._lk.depth != 0 or broken:
         bad = dict(input=desc, observed={"items": len(items), "lock depth at each yield": depths, "exception": repr(err), "log": log,
                                          "items whose identifier raises when read": broken},
